@@ -64,6 +64,14 @@ func checkC03(p *Prog, r *Report) {
 	ruleZone(p, r)
 	ruleMakeExact(p, r)
 	ruleLimits(p, r)
+	ruleErrUse(p, r)
+	ruleScan0(p, r)
+	ruleSubSec(p, r)
+	ruleEntryErr(p, r)
+	r.Floor("ENTRYERR", 1)
+	r.Floor("SUBSEC", 1)
+	r.Floor("SCAN0", 1)
+	r.Floor("ERRUSE", 10)
 	ruleReadAhead(p, r)
 	r.Floor("READAHEAD", 3)
 	r.Floor("LIMITS", 3)
